@@ -20,7 +20,9 @@ from ..terms import A, I, V, C, NIL, lst, clause, call, and_, or_, then, not_, c
 HUGE_NUMERALS = ["9" * 4300, "1" + "0" * 4300, "0" * 7 + "9" * 4400, "0" * 5000, "0" * 5000 + "42"]
 NUMERALS = ["0", "1", "01", "007", "00", "10", "0123456789", "1234567890123456789012345678901234567890", "00000000000000000000000000000000000000001"]
 VARNAMES = ["X", "True", "False", "None", "ATOM_NIL", "__builtins__", "__class__", "__debug__", "_1", "_x", "L1", "Arg1", "DoBreak",
-            "CutIf1", "X1", "Variable", "Atom", "Query", "Unify", "Y_y", "NotImplemented", "Ellipsis", "_abc"]
+            "CutIf1", "X1", "Variable", "Atom", "Query", "Unify", "Y_y", "NotImplemented", "Ellipsis", "_abc",
+            # spellings that whatever suffix or prefix the compiler adds might turn into a reserved or double-underscore name
+            "__debug_", "__debug", "_debug__", "__x_", "__", "___", "__class_", "__builtins_", "__import_", "True_", "None_", "__debug___"]
 ATOMS = ["foo", "if", "def", "lambda", "class", "import", "l1", "arg1", "doBreak", "cutIf1", "x1", "atom", "query", "variable", "functor", "unify",
          "listpair", "makelist", "none", "not", "is", "in", "yield", "return", "pass", "a_b", "aB9_",
          # names that look like the key another predicate or a registered Python predicate gets in the engine
